@@ -127,6 +127,18 @@ Definition handle_http (semver : bytes -> bool) (marshal : report -> bytes) (cfg
     (method : bytes) (declared : Z) (size_ok : bool) (decoded : option report) (m : fs) : status * fs :=
   handle semver marshal cfg method size_ok decoded m.
 
+(* Below the HTTP client API: the bytes on the wire may not even be a
+   well-framed body (invalid chunk-size line, chunk data not followed by CRLF,
+   a chunk length wider than 64 bits, a malformed trailer).  framing_ok = the
+   transfer coding could be decoded; otherwise io.ReadAll(r.Body) fails with
+   the decoder's error and handleUpload answers 400 like for any unreadable
+   body (size_ok / decoded are then meaningless and ignored).  Methods other
+   than POST never read the body. *)
+Definition handle_wire (semver : bytes -> bool) (marshal : report -> bytes) (cfg : config)
+    (method : bytes) (declared : Z) (framing_ok size_ok : bool) (decoded : option report) (m : fs) : status * fs :=
+  if beq method post && negb framing_ok then (S4xx, m)
+  else handle_http semver marshal cfg method declared size_ok decoded m.
+
 (* ---- what the property asks for ---- *)
 Definition approved (cfg : config) (r : report) : bool :=
   forallb (fun o => match o with Some p => program_ok cfg p | None => false end) (r_programs r).
@@ -148,6 +160,11 @@ Definition expected (semver : bytes -> bool) (marshal : report -> bytes) (cfg : 
       else (S4xx, m)
   | None => (S4xx, m)
   end.
+
+(* ... and an ill-framed body is no report either *)
+Definition expected_wire (semver : bytes -> bool) (marshal : report -> bytes) (cfg : config)
+    (method : bytes) (framing_ok size_ok : bool) (decoded : option report) (m : fs) : status * fs :=
+  if framing_ok then expected semver marshal cfg method size_ok decoded m else (S4xx, m).
 
 (* request sequences on one bucket *)
 Record request := mkRequest { q_method : bytes; q_size_ok : bool; q_decoded : option report }.
